@@ -55,7 +55,9 @@ def bound(tier):
 
 
 def lefts(n):
-    out = []
+    # the empty left side first (':x' is a check with nothing before the
+    # colon), and a blank one
+    out = [('', 0), (' ', 1)]
     for k in range(1, n + 1):
         for p in itertools.product(H, repeat=k):
             s = ''.join(p)
